@@ -115,8 +115,9 @@ Next == /\\ ~done /\\ done' = TRUE
 NOFAULT = dict(silent_peer=0, after=0, withhold_idx=-1)
 
 
-def case(scheme, mode, n, t, seed, policy="random", ids=None, deadline=6000, fault=None, byz=None, sign=True, cancel=0, msglen=2, slow=None, late=None, late_ms=0):
-    return dict(late=late or [], late_ms=late_ms, scheme=scheme, mode=mode, n=n, t=t, ids=ids or list(range(1, n + 1)), seed=seed, policy=policy, deadline_ms=deadline,
+def case(scheme, mode, n, t, seed, policy="random", ids=None, deadline=6000, fault=None, byz=None, sign=True, cancel=0, msglen=2, slow=None, late=None, late_ms=0,
+         signers=None):
+    return dict(late=late or [], late_ms=late_ms, signers=signers or [], scheme=scheme, mode=mode, n=n, t=t, ids=ids or list(range(1, n + 1)), seed=seed, policy=policy, deadline_ms=deadline,
                 fault=fault or NOFAULT, byz=byz, sign=sign and scheme in ("bls", "ps"), cancel_ms=cancel, msglen=msglen, cfg=0,
                 slow_init=(slow or (0, 0))[0], slow_ms=(slow or (0, 0))[1])
 
@@ -151,6 +152,14 @@ def cases_for(pid, tr, rng, drv, wd, late=()):
         for (n, mode) in ([(3, "loud"), (3, "silent"), (2, "loud")] if not big else [(2, "loud"), (3, "loud"), (3, "silent"), (4, "loud"), (4, "silent")]):
             for i in range(3 if not big else 12):
                 cs.append(case("eddsa", mode, n, n - 1, rng.randrange(1 << 30), policy=["random", "newest", "oldest"][i % 3], deadline=20000))
+        # orchestrated signing among an authorised SUBSET (threshold + 1 of the members call Sign), also with a late caller
+        for (n, t) in ([(3, 1)] if not big else [(3, 1), (4, 1), (4, 2)]):
+            for sg in itertools.combinations(range(1, n + 1), t + 1):
+                for mode in ("loud", "silent"):
+                    for lateset in ([[], [sg[-1]]] if not big else [[], [sg[0]], [sg[-1]]]):
+                        if not big and mode == "silent" and lateset:
+                            continue
+                        cs.append(case("eddsa", mode, n, t, rng.randrange(1 << 30), deadline=20000, signers=list(sg), late=lateset, late_ms=30 if lateset else 0))
         # large identifiers through the complete stack (C13 part)
         for ids in ([7, 300, 65535], [1, 256, 512]):
             cs.append(case("bls", "loud", 3, 2, rng.randrange(1 << 30), ids=ids))
